@@ -49,7 +49,6 @@ TReset == /\ IsEvent("Reset")
           /\ pend' = [t \in Threads |-> Idle]
 
 TOp == /\ IsEvent("Op")
-       /\ pend[Ev.t] = Idle
        /\ pend' = [pend EXCEPT ![Ev.t] = [op |-> Ev.op, h |-> Ev.h, size |-> Ev.size, fresh |-> FALSE]]
        /\ UNCHANGED <<nreg, live>>
 
